@@ -86,8 +86,10 @@ def run(ctx):
     for p in impl["cases"]:
         name = p["name"]
         tol = TOL.get(name, TOL_ITERATIVE if ("water_methanol" in name or "assoc" in name) else TOL_DEFAULT)
+        # (a non-finite value on one side only arrives as null: always a failure)
         f64_fail = [f for f in p["f64"]["failures"]
-                    if not abs(f["a"] - f["b"]) <= max(F64_RTOL, 10 * tol) * max(abs(f["a"]), abs(f["b"]))]
+                    if f["a"] is None or f["b"] is None
+                    or not abs(f["a"] - f["b"]) <= max(F64_RTOL, 10 * tol) * max(abs(f["a"]), abs(f["b"]))]
         if p.get("oracle_only"):
             # quick tier, large programs: plain f64 comparison at the sampled states only (the thorough tier regenerates them)
             oracle_only.append(name)
